@@ -42,6 +42,15 @@ def handle (j : Json) : Json :=
                              | .ok (.bool b) => some b
                              | _ => none
     jmsg (advanceMsg dflt arg (jnat j "body"))
+  else if op == "rpc" then
+    -- request published on side r, handled on side h: the deliveries of the reply, per side
+    let sides := (jarr j "sides").map asNat
+    let dflt := match RPVerif.Gen.msgFwdDefaults.find? (fun e => e.1 = "rpc_res") with
+                | some e => e.2
+                | none   => false
+    let ds := rpcRoundTrip sides (jnat j "fuel") dflt (RPVerif.Gen.rpcResCopied.contains "fwd")
+                (jnat j "r") (jnat j "h") (msgOf (jget j "msg"))
+    jl (sides.map (fun t => jl [jn t, jl ((ds.filter (fun d => d.1 = t)).map (fun d => jmsg d.2))]))
   else Json.str "bad-op"
 
 end Driver.Bridge
